@@ -838,6 +838,43 @@ def c17(ctx):
                 out.append(ok(R, key, 'the thread table is unlocked only after `threads.len() > max_threads` was found false; pops under the lock, joins outside it', fn=dp.name))
             else:
                 out.append(bad(R, key, 'despawn can release the thread table while it still holds more than max_threads threads (no exact `threads.len() > max_threads` test guards the exit)', fn=dp.name))
+    # every handle taken out of the table is joined: the joining iteration is total (a short-circuiting adaptor or an early exit drops the
+    # remaining handles unjoined, i.e. detaches pool threads that are still running)
+    if dp:
+        key = 'despawn|joins-every-handle'
+        TOTAL = ('Iterator::for_each',)
+        SHORT = ('Iterator::try_for_each', 'Iterator::try_fold', 'Iterator::any', 'Iterator::all', 'Iterator::find', 'Iterator::find_map', 'Iterator::position',
+                 'Iterator::take_while', 'Iterator::map_while', 'Iterator::skip_while', 'Iterator::take', 'Iterator::skip', 'Iterator::step_by', 'Iterator::nth', 'Iterator::last',
+                 'Iterator::filter', 'Iterator::filter_map', 'Iterator::next', 'Iterator::max_by_key', 'Iterator::min_by_key')
+        joins = [s for f in [dp] + _children(ctx, dp.name) for s in g.sites.get(f.name, []) if (s.t['func'].get('fn') or '').endswith('JoinHandle::join')]
+        verdicts = []
+        for s_ in joins:
+            if s_.fn.name == dp.name:
+                nexts = set(b for b, t in dp.calls() if (t['func'].get('fn') or '').endswith(('Iterator::next', 'Vec::pop', 'VecDeque::pop_front', 'VecDeque::pop_back')))
+                tgt = s_.t['target']
+                if tgt is not None and nexts and dp.must_pass(tgt, set(dp.exits()), nexts):
+                    verdicts.append(('ok', 'joined in a loop that only ends when the handles are exhausted'))
+                else:
+                    verdicts.append(('bad', 'the loop that joins the handles can be left after a join (e.g. on a join error): the remaining threads are detached while still running'))
+            else:
+                host = None
+                for b, t in dp.calls():
+                    if any(a['k'] != 'const' and clean_ty(a['pl']['ty']).replace('&mut ', '').replace('&', '') == '{closure:%s}' % s_.fn.name for a in t['args']):
+                        host = t['func'].get('fn') or ''
+                if host is None:
+                    verdicts.append(('und', 'the closure that joins is not passed directly to an iterator method of despawn_threads_if_overloaded'))
+                elif host.endswith(TOTAL):
+                    verdicts.append(('ok', 'joined by %s over all handles' % host.split('::')[-1]))
+                elif host.endswith(SHORT):
+                    verdicts.append(('bad', 'the handles are joined through %s, which can stop early or skip elements: the remaining pool threads are detached while still running (a panicked thread makes join() return Err)' % host.split('::')[-1]))
+                else:
+                    verdicts.append(('und', 'joined through %s: totality not known' % host))
+        if any(v == 'bad' for v, _ in verdicts):
+            out.append(bad(R, key, '; '.join(m for v, m in verdicts if v == 'bad'), fn=dp.name))
+        elif any(v == 'und' for v, _ in verdicts) or not verdicts:
+            out.append(undecided(R, key, '; '.join(m for v, m in verdicts if v == 'und') or 'no join found'))
+        else:
+            out.append(ok(R, key, '; '.join(sorted(set(m for v, m in verdicts))), fn=dp.name))
     return out
 
 
